@@ -131,21 +131,34 @@ type vDMRun struct {
 }
 
 type vDMState struct {
-	dm     *deploymentManager
-	st     *vs.Stepper
-	g      *vs.Gates
-	hosts  *vScriptedHostnames
-	bus    pubsub.Bus
-	nMan   int
-	lastM  *manifest.Group
-	run    *vDMRun
-	hostOK bool // hostname answer still outstanding
-	shut   bool
+	discovery bool // run only to find the enabled events of a prefix
+	dm        *deploymentManager
+	st        *vs.Stepper
+	g         *vs.Gates
+	hosts     *vScriptedHostnames
+	bus       pubsub.Bus
+	nMan      int
+	lastM     *manifest.Group
+	run       *vDMRun
+	hostOK    bool // hostname answer still outstanding
+	shut      bool
 	// manifests by pointer for the log
 	names map[*manifest.Group]string
 }
 
 const vStepTimeout = 20 * time.Second
+
+// vDMStuckSeen: a manager loop was seen stuck for the whole bound in this
+// process; later waits of the stepping harness are short (the verdict exists,
+// the remaining sequences add detail).
+var vDMStuckSeen int32
+
+func vStepBound() time.Duration {
+	if atomic.LoadInt32(&vDMStuckSeen) != 0 {
+		return 300 * time.Millisecond
+	}
+	return vStepTimeout
+}
 
 func vNewDMState() *vDMState {
 	g := vs.NewGates()
@@ -201,7 +214,10 @@ func (s *vDMState) note(f string, a ...interface{}) {
 // settle waits until the loop is parked and, if it says an operation is in
 // flight, until that operation's scripted call has registered.
 func (s *vDMState) settle() string {
-	r := s.st.WaitParked(s.dm.lc.Done(), vStepTimeout)
+	r := s.st.WaitParked(s.dm.lc.Done(), vStepBound())
+	if r == "timeout" {
+		atomic.StoreInt32(&vDMStuckSeen, 1)
+	}
 	if r != "parked" {
 		return r
 	}
@@ -307,7 +323,7 @@ func (s *vDMState) apply(ev vDMEvent) bool {
 		s.hostOK = false
 		return step()
 	case evDp, evDm:
-		c := s.g.WaitPending(vKDeploy, vStepTimeout)
+		c := s.g.WaitPending(vKDeploy, vStepBound())
 		if c == nil {
 			s.note("%s: no deploy in flight", ev)
 			return false
@@ -317,32 +333,32 @@ func (s *vDMState) apply(ev vDMEvent) bool {
 			err = errScripted
 		}
 		s.g.Release(c, nil, err)
-		s.g.WaitEnded(c, vStepTimeout)
+		s.g.WaitEnded(c, vStepBound())
 		return step()
 	case evTp:
-		c := s.g.WaitPending(vKTeardown, vStepTimeout)
+		c := s.g.WaitPending(vKTeardown, vStepBound())
 		if c == nil {
 			s.note("T+: no teardown in flight")
 			return false
 		}
 		s.g.Release(c, nil, nil)
-		s.g.WaitEnded(c, vStepTimeout)
+		s.g.WaitEnded(c, vStepBound())
 		return step()
 	case evT1:
-		c := s.g.WaitPending(vKTeardown, vStepTimeout)
+		c := s.g.WaitPending(vKTeardown, vStepBound())
 		if c == nil {
 			s.note("T1: no teardown in flight")
 			return false
 		}
 		s.g.Release(c, nil, errScripted)
-		s.g.WaitEnded(c, vStepTimeout)
-		c2 := s.g.WaitPending(vKTeardown, vStepTimeout) // retry after the back-off delay
+		s.g.WaitEnded(c, vStepBound())
+		c2 := s.g.WaitPending(vKTeardown, vStepBound()) // retry after the back-off delay
 		if c2 == nil {
 			s.note("teardown was not retried")
 			return false
 		}
 		s.g.Release(c2, nil, nil)
-		s.g.WaitEnded(c2, vStepTimeout)
+		s.g.WaitEnded(c2, vStepBound())
 		return step()
 	case evS:
 		go s.dm.lc.ShutdownAsync(nil) // hands the request to the loop: blocks until the loop takes it
@@ -398,7 +414,7 @@ func (s *vDMState) finish() (quiescent bool) {
 					if atomic.LoadInt32(&vDMOwedSeen) != 0 {
 						// (a manager that sat on an accepted teardown for the whole
 						// bound has been seen in this process: the verdict exists)
-						deadline = time.Now().Add(500 * time.Millisecond)
+						deadline = time.Now().Add(200 * time.Millisecond)
 					}
 				}
 				continue
@@ -423,7 +439,7 @@ var vDMOwedSeen int32
 // owed: a teardown request was accepted, the manager is still running and no
 // TeardownLease call has been made yet.
 func (s *vDMState) owed() bool {
-	if s.run.Accepted["C"] == 0 || s.done() {
+	if s.discovery || s.run.Accepted["C"] == 0 || s.done() {
 		return false
 	}
 	for _, c := range s.g.Calls() {
@@ -664,6 +680,8 @@ func vEnumerateDM(maxLen int, limit int, visit func(seq []vDMEvent)) int {
 		if alive {
 			en = s.enabled()
 		}
+		// (discovery only: nothing is judged here, so nothing owed is waited for)
+		s.discovery = true
 		s.finish()
 		s.cleanup()
 		if len(prefix) > 0 {
@@ -713,6 +731,12 @@ func TestVerif_C14(t *testing.T) {
 	defer verifhook.Set(nil)
 
 	judge := func(seq []vDMEvent, origin string) {
+		if atomic.LoadInt32(&vDMOwedSeen) != 0 && res.Violations() >= 24 && vs.ReplayFile() == "" {
+			// a manager that sits on an accepted teardown costs a bounded wait per
+			// sequence; two dozen recorded sequences are the verdict
+			res.Count("sequences_skipped_after_the_verdict", 1)
+			return
+		}
 		s, q, _ := vRunDMSequence(seq)
 		s.cleanup()
 		res.Eval(1)
